@@ -188,6 +188,39 @@ def run(ctx):
                         ctx.violation("C08/%s/zero-item/%s" % (cname, "complex" if cplx else "real"), "%s(%g): an all-zero item of shape %s is replaced by a signal of power %.6g" % (cname, T, shape, cout), {"shape": list(shape)})
     ctx.log("power constraints done", len(exprs))
 
+    # ------------------------------------------------------------------ the same signals held as permuted / transposed / strided views
+    for cname, mk in (("TotalPowerConstraint", lambda: K.TotalPowerConstraint(rng.choice(targets))), ("AveragePowerConstraint", lambda: K.AveragePowerConstraint(rng.choice(targets))),
+                      ("PeakAmplitudeConstraint", lambda: K.PeakAmplitudeConstraint(rng.choice([0.1, 1.0, 5.0]))), ("PAPRConstraint", lambda: K.PAPRConstraint(rng.choice([2.0, 4.0])))):
+        for shape in ((4, 6, 16), (2, 3, 4, 5), (5, 7), (1, 6, 16)):
+            for cplx in (False, True):
+                base = signal(rng.choice(fams[:4]), shape, cplx, "f32", gen) * rng.choice(scales)
+                views = [("transpose(-2,-1) view", base.transpose(-2, -1).contiguous().transpose(-2, -1))]
+                if len(shape) >= 3:
+                    views.append(("transpose(0,1) view", base.transpose(0, 1).contiguous().transpose(0, 1)))
+                    views.append(("permute view", base.permute(*reversed(range(len(shape)))).contiguous().permute(*reversed(range(len(shape))))))
+                wide = signal("gaussian", shape[:-1] + (2 * shape[-1],), cplx, "f32", gen)
+                views.append(("strided slice [..., ::2]", wide[..., ::2]))
+                c = mk()
+                for vname, xv in views:
+                    if xv.is_contiguous():
+                        continue
+                    x0 = xv.clone()
+                    ctx.count("view-cases")
+                    ctx.nontriv((cname, shape, cplx, vname))
+                    try:
+                        yv = c(xv)
+                        yc = c(xv.contiguous())
+                    except Exception as ex:
+                        ctx.violation("C08/%s/view/raises" % cname, "%s raised on a %s of shape %s: %s" % (cname, vname, shape, str(ex)[:100]), {"constraint": cname, "shape": list(shape), "view": vname})
+                        break
+                    if not torch.equal(xv, x0):
+                        ctx.violation("C08/%s/view/input-modified" % cname, "%s modified its input (a %s of shape %s)" % (cname, vname, shape), {"constraint": cname, "shape": list(shape), "view": vname})
+                        break
+                    if yv.shape != yc.shape or not torch.allclose(yv, yc, rtol=1e-4, atol=1e-6 * float(yc.abs().max() + 1e-30)):
+                        d = float((yv - yc).abs().max()) if yv.shape == yc.shape else float("nan")
+                        ctx.violation("C08/%s/view/differs" % cname, "%s on a %s of shape %s (strides %s) differs from the same values held contiguously by up to %.3g (output peak %.3g)" % (
+                            cname, vname, shape, tuple(xv.stride()), d, float(yc.abs().max())), {"constraint": cname, "shape": list(shape), "view": vname, "complex": cplx})
+                        break
     # ------------------------------------------------------------------ per-antenna power
     for shape in [(2, 3, 8), (1, 4, 6), (3, 2, 2, 5), (2, 4)] if quick else [(2, 3, 8), (1, 4, 6), (3, 2, 2, 5), (2, 4), (5, 1, 7), (2, 3, 2, 2, 2)]:
         for cplx in (False, True):
